@@ -5,11 +5,11 @@ clauses (used by harness/props/c27.py).  Pure functions of a `random.Random`."""
 REPEATED = [("Parts", ["Sensor", "Pipe"]), ("Interfaces", ["Port", "Flange"]), ("Types", ["Base", "Unit"])]
 
 
-def gen_library(rng, max_depth=2, const_min_depth=0, repeated_names=False):
+def gen_library(rng, max_depth=2, const_min_depth=0, repeated_names=False, import_prob=0.45):
     """Returns the list of top-level class nodes (packages at depth < const_min_depth get no
     constants, so that files can be cut out below them without meeting payload).  A node is a dict
     {"kind": "package"|"model", "name", "path": [..], "consts": [[name, value]], "imports": [..], "children": [..], "body": str}."""
-    counter = {"P": 0, "M": 0, "k": 0}
+    counter = {"P": 0, "M": 0, "k": 0, "W": 0}
     packages, models = [], []
 
     def fresh(p):
@@ -18,7 +18,8 @@ def gen_library(rng, max_depth=2, const_min_depth=0, repeated_names=False):
 
     def mk_package(path, depth):
         name = fresh("P")
-        node = {"kind": "package", "name": name, "path": path + [name], "consts": [], "children": [], "body": ""}
+        node = {"kind": "package", "name": name, "path": path + [name], "consts": [], "children": [], "body": "",
+                "imports": [], "may_import": depth >= const_min_depth and rng.random() < import_prob}
         packages.append(node)
         if depth >= const_min_depth:
             for _ in range(rng.choice([0, 1, 1, 2])):
@@ -89,7 +90,34 @@ def gen_library(rng, max_depth=2, const_min_depth=0, repeated_names=False):
         for p in packages:
             for cname, _v in p["consts"]:
                 consts.append(ref_to(p["path"] + [cname], scope))
-        if done and rng.random() < 0.45 and not m.get("repeated"):
+        # package-level imports (qualified, renaming, unqualified) of an enclosing package, used by this model
+        importers = [p for p in packages if p.get("may_import") and p["path"] == scope[:len(p["path"])]]
+        # importable: defined outside the importing package and not in one of its enclosing packages (visible anyway)
+        outside = lambda p: [d for d in done if not d.get("repeated") and d["path"][:len(p["path"])] != p["path"]
+                             and d["path"][:-1] != p["path"][:len(d["path"]) - 1]]
+        importers = [p for p in importers if outside(p)]
+        imported_used = False
+        if importers and rng.random() < 0.75:
+            p = rng.choice(importers)
+            t = rng.choice(outside(p))
+            style = rng.choice(["qualified", "renaming", "unqualified"])
+            if style == "qualified":
+                clause, spelled = "import %s;" % ".".join(t["path"]), t["name"]
+            elif style == "renaming":
+                alias = fresh("W")
+                clause, spelled = "import %s = %s;" % (alias, ".".join(t["path"][:-1])), alias + "." + t["name"]
+            else:
+                clause, spelled = "import %s.*;" % ".".join(t["path"][:-1]), t["name"]
+            if clause not in p["imports"]:
+                p["imports"].append(clause)
+            if rng.random() < 0.5 and not m.get("repeated"):
+                decls.append("extends %s;" % spelled)
+                terms.append("x_" + t["name"])
+                imported_used = True
+            else:
+                decls.append("%s i_%s;" % (spelled, m["name"]))
+                terms.append("i_%s.x_%s" % (m["name"], t["name"]))
+        if done and rng.random() < 0.45 and not m.get("repeated") and not imported_used:
             base = rng.choice(done)
             decls.append("extends %s;" % ref_to(base["path"], scope))
             terms.append("x_" + base["name"])
@@ -133,6 +161,7 @@ def render(node, cut=()):
     if node["kind"] == "model":
         return "model %s %s end %s;" % (node["name"], node["body"], node["name"])
     parts = ["package %s" % node["name"]]
+    parts += node.get("imports", [])
     for cname, v in node["consts"]:
         parts.append("constant Real %s = %d;" % (cname, v))
     for c in node["children"]:
@@ -143,7 +172,7 @@ def render(node, cut=()):
 
 
 def has_payload(node):
-    return node["kind"] == "model" or bool(node["consts"])
+    return node["kind"] == "model" or bool(node["consts"]) or bool(node.get("imports"))
 
 
 def split(rng, tops, nfiles, allow_payload_above_cut):
@@ -171,7 +200,9 @@ def split(rng, tops, nfiles, allow_payload_above_cut):
         ntop_extra = 1           # the second top-level package gets its own file (no within clause)
         want -= 1
     if must and want > 0:
-        cuts.append(rng.choice(must))
+        # prefer a cut below a package that has import clauses (they are content like constants)
+        imp = [n for n in must if any(q.get("imports") for q in above(n))]
+        cuts.append(rng.choice(imp) if imp and rng.random() < 0.7 else rng.choice(must))
     pool = [n for n in cand if n not in cuts]
     rng.shuffle(pool)
     pool.sort(key=lambda n: 1 if n.get("repeated") and rng.random() < 0.8 else 0)   # popped from the end: prefer them
